@@ -139,7 +139,8 @@ def finish(ctx, mod):
     for k in load_known():
         if k['property'] == ctx.pid and k.get('status') == 'known':
             known[k['bucket']] = k
-    rdir = os.path.join(VERIF, 'replays', ctx.pid)
+    out_base = os.environ.get('HXV_OUT_DIR') or VERIF     # scratch evaluations of mutated trees write elsewhere
+    rdir = os.path.join(out_base, 'replays', ctx.pid)
     new = []
     seen_known = []
     for bucket in sorted(ctx.buckets):
@@ -201,8 +202,8 @@ def finish(ctx, mod):
         'wall_s': round(wall, 2),
         'violations': len(new),
     }
-    os.makedirs(os.path.join(VERIF, 'evidence'), exist_ok=True)
-    with open(os.path.join(VERIF, 'evidence', ctx.pid + '.json'), 'w') as f:
+    os.makedirs(os.path.join(out_base, 'evidence'), exist_ok=True)
+    with open(os.path.join(out_base, 'evidence', ctx.pid + '.json'), 'w') as f:
         json.dump(ev, f, indent=1, sort_keys=True, default=repr)
         f.write('\n')
 
